@@ -55,6 +55,12 @@ class Runner:
         if variant in ("cache", "nocache"):
             from utype.utils.base import TypeRegistry
             self.reg = TypeRegistry("verif", cache=(variant == "cache"))
+        elif variant == "layered":
+            # a registry with a base: lookups go through the child, registrations into either
+            from utype.utils.base import TypeRegistry
+            self.base = TypeRegistry("verif-base", cache=True)
+            self.reg = TypeRegistry("verif", cache=True, base=self.base)
+            self.nbase = 0
         elif variant == "global":
             import utype
             self.reg = utype.TypeTransformer.registry
@@ -63,8 +69,12 @@ class Runner:
             self.reg = encoder_registry
 
     def register(self, st):
-        self.nreg += 1
-        k = self.nreg
+        if st["op"] == "regb":
+            self.nbase += 1
+            k = 100 + self.nbase
+        else:
+            self.nreg += 1
+            k = self.nreg
         if self.variant == "encoder":
             def fn(o, _k=k):
                 return ["fn", _k]
@@ -90,6 +100,8 @@ class Runner:
         elif self.variant == "encoder":
             import utype
             utype.register_encoder(*classes, allow_subclasses=st["allow"], priority=st["prio"], **kw)(fn)
+        elif st["op"] == "regb":
+            self.base.register(*classes, allow_subclasses=st["allow"], priority=st["prio"], **kw)(fn)
         else:
             self.reg.register(*classes, allow_subclasses=st["allow"], priority=st["prio"], **kw)(fn)
 
@@ -117,7 +129,7 @@ def run_history(ops, variant, n):
     r = Runner(variant, n)
     steps = []
     for op in ops:
-        if op["op"] == "reg":
+        if op["op"] in ("reg", "regb"):
             r.register(op)
             steps.append(dict(op))
         else:
@@ -257,11 +269,53 @@ def main():
             ck.count("divergences", len(divs))
             ck.note("divergence: M (Registry.tla, Variant=fixed) does not explain %d resolve results, e.g. %s step %d"
                     % (len(divs), divs[0][1], divs[0][3]))
+    layered_stage(ck, rng, thorough, types)
     ck.trusted = ["TLC 1.8", "harness/drivers/c16.py projection (function identity = registration sequence number)",
                   "real classes built to mirror Registry.tla's lattice"]
     ck.assumptions = ["types carrying a __transformer__/__encoder__ shortcut attribute are outside the property",
-                      "a single registry without base= fallback"]
+                      "a base= fallback one level deep"]
     return ck.finish()
+
+
+def layered_stage(ck, rng, thorough, types):
+    """a registry created with base=: LayeredRegistry.tla model-checked (the variant that caches the base's answer in the child refuted),
+    every history of depth 3 over its menu and random longer ones run on real registries, judged by Trace_LayeredRegistry"""
+    mc = tlc.run("MC_LayeredRegistry", "MC_LayeredRegistry_own.cfg")
+    ck.mc(mc, "MC layered")
+    if mc.invariant_violated:
+        ck.count("model_only_counterexamples")
+        ck.note("model-level counterexample: LayeredRegistry (as coded) violates %s" % mc.invariant_violated)
+    if not tlc.run("MC_LayeredRegistry", "MC_LayeredRegistry_all.cfg").invariant_violated:
+        raise MachineryError("P_Layered not falsified when the child caches the answer of its base")
+    ck.count("orig_variant_refuted_by_TLC")
+    menu = menu_from_tlc(mc, "MENUL")
+    ops = menu + [dict(m, op="regb") for m in menu] + [{"op": "res", "t": t} for t in types]
+    hist = [list(seq) for seq in itertools.product(ops, repeat=3) if seq[-1]["op"] == "res" and seq[0]["op"] != "res"]
+    for _ in range(6000 if thorough else 600):
+        hist.append([rng.choice(ops) for _ in range(rng.randint(4, 9))] + [{"op": "res", "t": rng.choice(types)}])
+    recs = []
+    for i, h in enumerate(hist):
+        recs.append({"id": "c16-layered-%d" % i, "variant": "layered", "steps": run_history(h, "layered", i)})
+    r = tlc.judge("Trace_LayeredRegistry", "Trace_LayeredRegistry.cfg", recs, workers=8)
+    expected = sum(len(x["steps"]) + 1 for x in recs)
+    if r.distinct != expected:
+        raise MachineryError("trace acceptance (layered registry): TLC visited %d states, expected %d" % (r.distinct, expected))
+    ck.states += r.distinct
+    ck.transitions += r.generated
+    ck.judged(len(recs))
+    ck.count("layered_histories", len(recs))
+    byid = {x["id"]: x for x in recs}
+    for x in recs:
+        if nontrivial([dict(o, op="reg") if o["op"] == "regb" else o for o in x["steps"]]):
+            ck.keys.add("L|" + ">".join(o["op"] + (o.get("t") or "".join(o.get("cls", []))) for o in x["steps"]))
+    for t in r.tagged("VIOL"):
+        x = byid[t[1]]
+        ck.violation("C16|P_Layered|%s" % ">".join(o["op"] for o in x["steps"][:t[3]]), t[2],
+                     {"variant": "layered", "steps": x["steps"], "failing_step": t[3], "shape": ">".join(o["op"] for o in x["steps"])})
+    dv = r.tagged("DIV")
+    if dv:
+        ck.count("divergences", len(dv))
+        ck.note("divergence: LayeredRegistry does not explain %d lookup results, e.g. %s step %d" % (len(dv), dv[0][1], dv[0][3]))
 
 
 def nontrivial(ops):
@@ -280,10 +334,15 @@ def nontrivial(ops):
 def replay(path):
     d = json.load(open(path))
     rec = d["record"]
-    ops = [s if s["op"] == "reg" else {"op": "res", "t": s["t"]} for s in rec["steps"]]
+    ops = [s if s["op"] in ("reg", "regb") else {"op": "res", "t": s["t"]} for s in rec["steps"]]
     steps = run_history(ops, rec["variant"], 1)
     print("recorded:", [s["fn"] for s in rec["steps"] if s["op"] == "res"])
     print("now     :", [s["fn"] for s in steps if s["op"] == "res"])
+    if rec["variant"] == "layered":
+        r = tlc.judge("Trace_LayeredRegistry", "Trace_LayeredRegistry.cfg", [{"id": "replay", "variant": "layered", "steps": steps}], workers=1)
+        v = r.tagged("VIOL")
+        print("VIOLATION property=C16 replay=%s" % path if v else "replay: property holds now")
+        return 1 if v else 0
     r = tlc.judge("Trace_Registry", "Trace_Registry_%s.cfg" % ("FALSE" if rec["variant"] == "nocache" else "TRUE"),
                   [{"id": "replay", "variant": rec["variant"], "steps": steps}], workers=1)
     v = r.tagged("VIOL")
